@@ -453,6 +453,23 @@ def t_unsqueeze_unsqueeze(p):
         S("mid_is_output", "intermediate-is-output", mk(2, [0], [1], tap="output")),
         S("mid_has_consumer", "intermediate-has-consumer", mk(2, [0], [1], tap="consumer")),
     ]
+    import itertools
+    seen = set()
+    for a1 in ([0], [1], [2], [3], [0, 2], [2, 0], [1, 3]):
+        r1 = 3 + len(a1)
+        for k2 in (2, 3):
+            for a2 in itertools.permutations(range(r1 + k2), k2):
+                # keep the grid small and pointed: axes2 that straddle an axis of the first Unsqueeze, in every order
+                if not (min(a2) <= max(a1) <= max(a2)) or len(seen) >= 160:
+                    continue
+                if sum(a2) % 3 and tuple(sorted(a2)) != a2 and len(a1) > 1:
+                    continue
+                key = (tuple(a1), a2)
+                if key in seen:
+                    continue
+                seen.add(key)
+                srt = "sorted" if list(a2) == sorted(a2) else "unsorted"
+                out.append(S(f"multi_{'_'.join(map(str, a1))}__{'_'.join(map(str, a2))}", f"axes multi;second {srt}", mk(3, list(a1), list(a2))))
     return out
 
 
